@@ -30,6 +30,11 @@ func main() {
 		os.Exit(2)
 	}
 	id := os.Args[1]
+	if id == "C18-race" {
+		reps, _ := strconv.Atoi(os.Args[2])
+		c18.RaceWorker(reps)
+		return
+	}
 	if id == "C20-race" {
 		g, _ := strconv.Atoi(os.Args[4])
 		reps, _ := strconv.Atoi(os.Args[5])
